@@ -28,6 +28,40 @@ def run(R):
     R.rule("C11.output", "ExecutionOutput constructors carry the engine's result row unmodified")
     # ---- compose: every method of the aggregate engine that updates with a row and then renders the table does so exactly when the
     #      row was accepted (execute_update returned true) - and on nothing else (no `only if something changed` engine flag)
+    # ---- refresh: wherever else a row is folded into the aggregate state (a direct update_aggregates call outside execute_update), the
+    #      table is rendered afterwards on every path that returns normally - there is no "nothing visible changed" shortcut, because the
+    #      rendered values of some aggregates (PERCENTILE) only come into being in the result phase
+    R.rule("C11.refresh", "a row folded into the aggregate state outside execute_update is followed by execute_result on every normally "
+                          "returning path (no skipped refresh)")
+    n_ref = 0
+    for g0 in sorted(P.fns.values(), key=lambda x: x.key):
+        if g0.target != "lib" or g0.kind == "Closure" or g0.derived or not g0.spath.startswith("sqlgrep::execution::") \
+                or (PR.pinned_fns() and g0.spath not in PR.pinned_fns()) or g0.spath == AGGE + "execute_update":
+            continue
+        g = PR.view(P, g0)
+        ups = [c for c in g.calls if short(c.name) == AGGE + "update_aggregates"]
+        if not ups:
+            continue
+        n_ref += 1
+        rblocks = set(c.bb for c in g.calls if short(c.name) == AGGE + "execute_result")
+        errblocks = set(c.bb for c in g.calls if short(c.name).endswith("::from_residual"))
+        bad_exit = None
+        for u in ups:
+            if u.target is None:
+                continue
+            reach = g.reachable_from(u.target, avoid=rblocks | errblocks)
+            ex = sorted(set(g.exits()) & reach)
+            if ex:
+                bad_exit = (u, ex[0])
+        if bad_exit:
+            R.violation("C11.refresh", g0.spath.split("::")[-1] + "|refresh-skipped",
+                        "%s folds the row into the aggregate state (update_aggregates) and can then return normally without execute_result: the "
+                        "followed table is not refreshed for that line, so it can differ from a batch run over the same prefix (e.g. a "
+                        "PERCENTILE in HAVING only gets its value in the result phase)" % g0.path, [bad_exit[0].loc(), g.loc(bad_exit[1])])
+        else:
+            R.ok("C11.refresh", g0.spath.split("::")[-1], "update_aggregates is followed by execute_result on every normal path", ups[0].loc())
+    if n_ref == 0:
+        R.ok("C11.refresh", "none", "update_aggregates is called from execute_update only", R.need_fn(AGGE + "execute_update").loc(), nontrivial=False)
     composers = []
     for g0 in P.fns.values():
         if g0.target != "lib" or g0.kind == "Closure" or not (g0.raw.get("impl_self") or "").endswith("aggregate_execution::AggregateExecutionEngine"):
